@@ -175,6 +175,7 @@ def main():
     stats = {}
     suites_run = []
     oracle_unlisted = []
+    known_hex = set()
     suites = list(spec["suites"])
     if tier == "thorough":
         # "all other properties hold unchanged under both feature configurations" (C19)
@@ -188,7 +189,7 @@ def main():
             rp = write_replay("build", {"broken": "cargo build harness", "raw": out[-3000:]})
             violations.append((rp, " no-failing-input-found"))
             continue
-        sdir = os.path.join(work, suite["name"] + ("-ext" if feats else ""))
+        sdir = os.path.join(work, suite["name"] + "-" + "-".join(suite.get("args", [])) + ("-ext" if feats else ""))
         cmd = [exe, suite["name"], tier, str(seed), sdir] + suite.get("args", [])
         rc, out = run(cmd, cwd=HARN, timeout=suite.get("timeout", 3000),
                       env={"VERIF_DRIVER": os.path.join(LEAN, ".lake/build/bin/driver")})
@@ -231,6 +232,9 @@ def main():
             k = match_known(pid, f, known)
             if k:
                 known_lines.append((k["id"], k["what"]))
+                hx = (f.get("input") or {}).get("text_hex")
+                if hx:
+                    known_hex.add(hx)
             else:
                 oracle_unlisted.append({"suite": suite["name"], **f})
 
@@ -247,6 +251,8 @@ def main():
             seen.add(key)
             rp = write_replay("oracle", {"failure": f, "all_count": len(oracle_unlisted)})
             violations.append((rp, ""))
+    # an input recorded as a known finding may also differ from the model (e.g. the implementation panics there)
+    mismatches = [m for m in mismatches if not any(h in m["case"] for h in known_hex)]
     if mismatches:
         # the model no longer matches the code; the oracle above is the search for a failing input
         rp = write_replay("correspondence", {"broken": "model/implementation correspondence",
